@@ -1,10 +1,14 @@
 #!/bin/sh
 # soak.sh <tier> <seed>... : every check on the unchanged tree under several base seeds;
-# evidence/replays go to /tmp/soak so that /verif/evidence is not disturbed.
+# evidence/replays go to a scratch directory so that /verif/evidence is not disturbed.
+# Honours VERIF_HOME (frozen snapshot, e.g. under `vp run`): VERIF_HOME=$PWD sh setup.sh first.
+H=${VERIF_HOME:-/verif}
+O=${SOAK_OUT:-/tmp/soak}
+mkdir -p "$O"
 tier=$1; shift
 for seed in "$@"; do
-  for p in C01 C05 C09 C11 C12 C14 C15 C18 C19 C20; do
-    VERIF_OUT=/tmp/soak VERIF_SEED=$seed /verif/bin/verif check $p --tier $tier > /tmp/soak_$p_$seed.txt 2>&1
-    echo "seed=$seed $p exit=$? $(tail -1 /tmp/soak_$p_$seed.txt | cut -c1-150)"
+  for p in ${SOAK_CHECKS:-C01 C05 C09 C11 C12 C14 C15 C18 C19 C20}; do
+    VERIF_HOME=$H VERIF_OUT=$O VERIF_SEED=$seed "$H/bin/verif" check $p --tier $tier > "$O/soak_${p}_$seed.txt" 2>&1
+    echo "seed=$seed $p exit=$? $(tail -1 "$O/soak_${p}_$seed.txt" | cut -c1-150)"
   done
 done
